@@ -64,6 +64,9 @@ def SchemaStep(info, step):
 def answer(out):
     """the model's answer in comparable form"""
     if "ok" in out:
+        if isinstance(out["ok"], dict) and "hyp" in out["ok"]:
+            # fitGuards: the hypotheses of `delete_total` are used relationally only (`check_fit_guards`)
+            return {k: v for k, v in out["ok"].items() if k != "hyp"}
         return out["ok"]
     if out.get("err") == "raises":
         return RAISES
@@ -198,6 +201,16 @@ def check_fit_guards(ctx, replay, out):
         ctx.count("fit guards: termination guard holds")
         if st == "hang":
             ctx.mismatch("fitGuards:term-guard-true-but-hangs", replay, st, g)
+    h = g.get("hyp")
+    if isinstance(h, dict):
+        # `delete_total` (Props/C11.lean): with its hypotheses true, replace_step with the empty slice returned
+        if g.get("det") and h.get("fillers") and h.get("valid") and h.get("attrs") and not h.get("topTextblock") \
+                and replay["from"] <= replay["to"]:
+            ctx.count("fit guards: delete_total hypotheses hold")
+            if st != "ok":
+                ctx.mismatch("fitGuards:delete-hypotheses-true-but-not-returned", replay, st, g)
+        else:
+            ctx.count("fit guards: delete_total hypotheses fail (%s)" % ",".join(k for k in sorted(h) if h[k] != (k != "topTextblock")))
 
 
 def tie_divergence_example(ctx, reqs, metas):
